@@ -21,6 +21,7 @@ import json
 import math
 import os
 import shutil
+import sys
 import struct
 import tempfile
 import time
@@ -138,7 +139,11 @@ RULE = ("catalogs of 0..40 events (sizes 0, 1, 2, 40 always present) built with 
         "is canonical (canon_load / canon_rt / canon_region): events always; the catalog id only for a non-empty catalog "
         "with an integer id (append pairs: only when all records carry the same id); invented ids of id-less files, the "
         "region's own name, index labels of frames, file layout, caller-side dict / frame mutation are recorded below "
-        "the property level.")
+        "the property level. Round 7 (classes h-m): 25% of the catalogs replaced by copy / deepcopy / pickle / dict image "
+        "before use; rejected calls (unrepresentable time, non-utf-8 id, missing directory, bad option; malformed dict / "
+        "frame) caught before the judged calls, incl. append=True to a file that does not exist; user subclass overriding "
+        "the accessors with __len__ / __bool__; every fifth catalog under numpy.errstate(divide, invalid = raise) and a "
+        "decimal context of 2..6 digits; a catalog appended to its own file; sub-check choices depend on the case only.")
 
 # sub-classes on which the UNCHANGED pyCSEP contradicts the property: generated only once a decision (fix or known
 # finding) has removed them from this list; see notes/C14.md "Awaiting decision"
@@ -361,10 +366,68 @@ def build(spec, with_region=True):
         return CSEPCatalog(filename=None, data=data, catalog_id=build_catid(spec), format=None, name=spec["name"],
                            region=region, compute_stats=True, filters=None, metadata=None, date_accessed=None)
     if kind == "subclass":           # a user's catalog class that inherits everything
+        SubCatalog = user_classes()[0]
+        cat = SubCatalog(data=data, catalog_id=build_catid(spec), name=spec["name"], region=region)
+    elif kind == "accessor-subclass":
+        # round 7 (j): a user subclass that overrides the documented accessors CONSISTENTLY (fresh arrays with the stored
+        # values) and defines __len__ / __bool__ (an empty catalog is falsy)
+        AccessorCatalog = user_classes()[1]
+        cat = AccessorCatalog(data=data, catalog_id=build_catid(spec), name=spec["name"], region=region)
+    else:
+        cat = CSEPCatalog(data=data, catalog_id=build_catid(spec), name=spec["name"], region=region)
+    return copied(cat, spec.get("copy_form"))
+
+
+def user_classes():
+    """the user's catalog classes, defined once at module level (so that pickle can find them by name)"""
+    g = globals()
+    if "SubCatalog" not in g or g["SubCatalog"].__mro__[1].__module__ not in sys.modules:
+        import numpy
+        from csep.core.catalogs import CSEPCatalog
+
         class SubCatalog(CSEPCatalog):
             pass
-        return SubCatalog(data=data, catalog_id=build_catid(spec), name=spec["name"], region=region)
-    return CSEPCatalog(data=data, catalog_id=build_catid(spec), name=spec["name"], region=region)
+
+        class AccessorCatalog(CSEPCatalog):
+            def get_magnitudes(self): return numpy.array(self.catalog["magnitude"], copy=True)
+            def get_longitudes(self): return numpy.array(self.catalog["longitude"], copy=True)
+            def get_latitudes(self): return numpy.array(self.catalog["latitude"], copy=True)
+            def get_depths(self): return numpy.array(self.catalog["depth"], copy=True)
+            def get_epoch_times(self): return numpy.array(self.catalog["origin_time"], copy=True)
+            def get_number_of_events(self): return 0 if self.catalog is None else int(self.catalog.shape[0])
+            def __len__(self): return self.get_number_of_events()
+            def __bool__(self): return len(self) > 0
+        for c in (SubCatalog, AccessorCatalog):
+            c.__qualname__ = c.__name__
+            c.__module__ = __name__
+            g[c.__name__] = c
+    return g["SubCatalog"], g["AccessorCatalog"]
+
+
+COPY_FORMS = ["copy", "deepcopy", "pickle", "dict-image"]
+_COPY_UNSUPPORTED = set()
+
+
+def copied(cat, form):
+    """round 7 (h): the object the operation is applied to is a copy / a pickle image / the to_dict -> from_dict image of
+    the catalog; the expected result is that of the original. A form the tree cannot apply to this kind of catalog is
+    skipped (counted once in run.extra through _COPY_UNSUPPORTED)."""
+    if not form:
+        return cat
+    import copy
+    import pickle
+    try:
+        if form == "copy":
+            return copy.copy(cat)
+        if form == "deepcopy":
+            return copy.deepcopy(cat)
+        if form == "pickle":
+            return pickle.loads(pickle.dumps(cat))
+        if form == "dict-image" and not hasattr(cat.region, "quadkeys"):     # (quadtree regions do not survive: D43)
+            return type(cat).from_dict(cat.to_dict())
+    except Exception as e:
+        _COPY_UNSUPPORTED.add(f"{form}: {type(e).__name__}")
+    return cat
 
 
 def check_construction(ctx, case):
@@ -406,6 +469,21 @@ def has_duplicates(spec):
 
 def case_key(case):
     return hashlib.sha1(json.dumps(case, sort_keys=True).encode()).hexdigest()[:20]
+
+
+_SEL_CACHE = {}
+
+
+def sel(case, n, salt=0):
+    """a choice 0..n-1 that depends on the CASE only (not on how many files the run has written so far), so that a replay
+    of the case takes the same branches"""
+    k = id(case)
+    hit = _SEL_CACHE.get(k)
+    if hit is None or hit[0] is not case:
+        if len(_SEL_CACHE) > 64:
+            _SEL_CACHE.clear()
+        hit = _SEL_CACHE[k] = (case, int(case_key(case), 16))
+    return (hit[1] // (1 + 7919 * salt)) % n
 
 
 def summary(case):
@@ -758,6 +836,43 @@ def load_ascii(path, via="default"):
     return cat, resp, None
 
 
+def poison_events(ref, kind):
+    """the catalog's events with one event in the middle that cannot be written: an origin time datetime cannot hold, or an
+    id that is not utf-8"""
+    bad = ("broken", 2 ** 60, 1.0, 2.0, 3.0, 4.0) if kind.startswith("bad-time") else (b"\xff\xfe", 1500000000000, 1.0, 2.0, 3.0, 4.0)
+    k = (len(ref) + 1) // 2
+    return list(ref[:k]) + [bad] + list(ref[k:])
+
+
+def failed_call_prelude(ctx, case, cat, ref, path, kind, hdr, emp):
+    """round 7 (i): a call the library REJECTS on the same file name / the same object, caught by the caller, who removes
+    whatever partial output there is; the legal calls that follow are judged as usual"""
+    from csep.core.catalogs import CSEPCatalog
+    try:
+        if kind == "bad-path":
+            cat.write_ascii(os.path.join(os.path.dirname(path), "no_such_directory", "c.csv"), write_header=hdr, write_empty=emp)
+        elif kind == "bad-option":
+            cat.write_ascii(path, write_header=hdr, write_empty=emp, id_col=["not", "hashable"])
+        else:
+            poison = CSEPCatalog(data=poison_events(ref, kind), catalog_id=case["cat"]["catalog_id"], compute_stats=False)
+            poison.write_ascii(path, write_header=hdr, write_empty=emp, append=kind.endswith("append"))
+        ctx.run.count(f"prelude {kind}: the call was NOT rejected")
+    except Exception as e:
+        ctx.run.count(f"prelude {kind}: rejected with {type(e).__name__}, caught")
+    if os.path.exists(path):
+        os.remove(path)
+
+
+def leftovers(ctx, path):
+    d, base = os.path.dirname(path), os.path.basename(path)
+    extra = [f for f in os.listdir(d) if f != base and f.startswith(base)]
+    if extra:
+        ctx.run.count("observed: files left next to the target: " + ",".join(sorted(x[len(base):] for x in extra)))
+        for f in extra:
+            with contextlib.suppress(OSError):
+                os.remove(os.path.join(d, f))
+
+
 def check_ascii(ctx, case):
     spec, o = case["cat"], case["opts"]
     hdr, emp = bool(o["write_header"]), bool(o["write_empty"])
@@ -767,13 +882,21 @@ def check_ascii(ctx, case):
     path = ctx.path("csv")
     fails, codec = [], []        # round-trip failures are reported before codec failures
     branches = [f"ascii:header={int(hdr)},write_empty={int(emp)}" + (",no id column" if noid else "")]
+    app_new = bool(o.get("append_new")) and not noid
+    if o.get("prelude") and not noid:
+        failed_call_prelude(ctx, case, cat, ref, path, o["prelude"], hdr, emp)
+        branches.append("ascii:after a rejected call (" + o["prelude"] + ")")
     try:
         if noid:
             cat.write_ascii(path, write_header=hdr, write_empty=emp, id_col="no_such_column")
+        elif app_new:
+            # append mode on a file that does not exist yet (how a stochastic event set is started) = a plain write
+            cat.write_ascii(path, write_header=hdr, write_empty=emp, append=True)
+            branches.append("ascii:append=True to a file that does not exist")
         elif o.get("via") == "pathlib":
             import pathlib
             cat.write_ascii(pathlib.Path(path), hdr, emp)          # positional options, a Path for the file name
-        elif ctx.nfile % 7 == 0:
+        elif sel(case, 7, 1) == 0:
             # round 6: every option by position, and warnings (other than deprecation notices) turned into exceptions
             try:
                 with strict_warnings():
@@ -791,6 +914,8 @@ def check_ascii(ctx, case):
     # without id column the id cells are empty and the reader numbers the records by their index in the file
     written = [("",) + e[1:] for e in ref] if noid else ref
     expect = [(str(k + (1 if hdr else 0)),) + e[1:] for k, e in enumerate(ref)] if noid else ref
+    if o.get("prelude"):
+        leftovers(ctx, path)
     rows, recs = written_file(ctx, path, written, [], codec)
     ctx.n_events += len(ref)
     if recs is not None:
@@ -812,7 +937,7 @@ def check_ascii(ctx, case):
         # what csep.load_catalog makes of these bytes = what the text model makes of them (property level)
         ctx.ask(f"c14_text_load x{raw.hex()}", resp, case, canon_load(demand_id, mask_ids=noid))
         ctx.run.count("ascii:file bytes through the text model (c14_text_load)")
-        if text_model_ok(ref) and (len(ref) <= 6 or ctx.nfile % 5 == 0):
+        if text_model_ok(ref) and (len(ref) <= 6 or sel(case, 5, 2) == 0):
             # the bytes themselves (file layout: below the property level, recorded as divergence only)
             ctx.ask(f"c14_text_write {int(hdr)} {int(emp)} {catid_tok(spec['catalog_id'])} {events_tok(ref)} {int(not noid)}",
                     "x" + raw.hex(), case)
@@ -836,8 +961,8 @@ def check_ascii(ctx, case):
                           else "ascii:no id column, ids differ from the record indices")
             expect = [(g[0],) + e[1:] for g, e in zip(got, expect)] if len(got) == len(expect) else expect
         compare_events("ascii round trip" + (" (no id column)" if noid else ""), expect, got, fails)
-        if not fails and (not ref or ctx.nfile % 3 == 0) and len(ref) <= 200:
-            second_generation("ascii round trip", loaded, expect, fails, "dict" if ctx.nfile % 2 else "frame")
+        if not fails and (not ref or sel(case, 3, 3) == 0) and len(ref) <= 200:
+            second_generation("ascii round trip", loaded, expect, fails, "dict" if sel(case, 2, 4) else "frame")
             branches.append("second generation (loaded catalog persisted again)")
         if not ref:
             branches.append("ascii:empty catalog (no row carries the id; id not demanded)")
@@ -862,7 +987,8 @@ def check_append(ctx, case):
     events(A) + events(B); header2=True: a header record lands after A's records (model only)."""
     a, b, o = case["cat"], case["cat2"], case["opts"]
     hdr, emp, hdr2, emp2 = (bool(o[k]) for k in ("write_header", "write_empty", "header2", "write_empty2"))
-    ca, cb = build(a, with_region=False), build(b, with_region=False)
+    ca = build(a, with_region=False)
+    cb = ca if o.get("same_object") else build(b, with_region=False)     # round 7 (l): one catalog object in both roles
     ra, rb = events_of(ca), events_of(cb)
     path = ctx.path("csv")
     fails, codec = [], []
@@ -1084,11 +1210,22 @@ def check_dict(ctx, case):
     branches = [f"{fmt}:region={'yes' if spec['region'] else 'no'}", f"{fmt}:name={'None' if spec['name'] is None else 'str'}"]
     loads = []          # (label, loaded catalog)
     alias_dict = None
+    if sel(case, 3, 9) == 0:
+        # round 7 (i): calls the library rejects, caught by the caller, before the judged calls on the same object / class
+        for bad_call in (lambda: type(cat).from_dict({"catalog": [("x", "not a time")], "name": 5}),
+                         lambda: cat.write_json(os.path.join(ctx.tmp, "no_such_directory", "c.json")),
+                         lambda: type(cat).load_json(os.path.join(ctx.tmp, "no_such_file.json"))):
+            try:
+                bad_call()
+                ctx.run.count("prelude (dict / json): the call was NOT rejected")
+            except Exception as e:
+                ctx.run.count("prelude (dict / json): rejected with " + type(e).__name__ + ", caught")
+        branches.append(f"{fmt}:after rejected calls")
     try:
         if fmt == "dict":
             d = cat.to_dict()
             before = dict_fingerprint(d)
-            loads.append((what, type(cat).from_dict(adict=d) if ctx.nfile % 2 else type(cat).from_dict(d)))
+            loads.append((what, type(cat).from_dict(adict=d) if sel(case, 2, 5) else type(cat).from_dict(d)))
             if dict_fingerprint(d) != before:
                 # what matters is that the stored form can be loaded again (next line); that from_dict touched the
                 # caller's dict at all is not the property's business (counted)
@@ -1107,7 +1244,7 @@ def check_dict(ctx, case):
         else:
             path = ctx.path("json")
             cat.write_json(path)
-            loads.append((what, (CSEPCatalog.load_json(filename=path) if ctx.nfile % 2 else CSEPCatalog.load_json(path))
+            loads.append((what, (CSEPCatalog.load_json(filename=path) if sel(case, 2, 5) else CSEPCatalog.load_json(path))
                           if via == "load_json" else csep.load_catalog(path)))
             loads.append((f"{what} (second load of the same file)",
                           csep.load_catalog(path, format="csep") if via == "load_json" else CSEPCatalog.load_json(path)))
@@ -1116,7 +1253,7 @@ def check_dict(ctx, case):
                 with open(path, "rb") as f:
                     doc_bytes = f.read()
             os.unlink(path)
-            if doc_bytes is not None and len(doc_bytes) <= 120000 and (len(ref) <= 6 or ctx.nfile % 4 == 0):
+            if doc_bytes is not None and len(doc_bytes) <= 120000 and (len(ref) <= 6 or sel(case, 4, 6) == 0):
                 doc_correspondence(ctx, case, doc_bytes, loads[0][1])
             if len(ref) <= 200:
                 # round 5: the repository layer, the package's second public JSON entry point
@@ -1162,8 +1299,8 @@ def check_dict(ctx, case):
                 fails.append((f"{what}: editing the dict AFTER from_dict changed the loaded catalog (it aliases the caller's data)", None))
         except Exception as e:
             fails.append((f"{what}: the loaded catalog cannot be inspected: {type(e).__name__}: {e}", None))
-    if not fails and (not ref or ctx.nfile % 3 == 0) and len(ref) <= 200:
-        second_generation(what, loaded, ref, fails, "frame" if ctx.nfile % 2 else "dict")
+    if not fails and (not ref or sel(case, 3, 3) == 0) and len(ref) <= 200:
+        second_generation(what, loaded, ref, fails, "frame" if sel(case, 2, 4) else "dict")
         branches.append("second generation (loaded catalog persisted again)")
     if fmt == "json" and ref and len(ref) <= 40:
         # round 5, token level: what json writes for the ids (py_encode_basestring_ascii) and reads back (py_scanstring),
@@ -1176,7 +1313,7 @@ def check_dict(ctx, case):
             ctx.ask("c14_json_unstr " + ";".join(hx(t) for t in toks), ";".join(hx(json.loads(t)) for t in toks),
                     case)
             ctx.run.count("json:id tokens against Model/CatalogJson", len(ids))
-        if (len(ref) <= 6 or ctx.nfile % 4 == 0):
+        if (len(ref) <= 6 or sel(case, 4, 7) == 0):
             xs = [x for e in ref for x in e[2:6] if math.isfinite(x)]
             if xs:     # by bit pattern: negative zero and subnormals are ordinary values of Model/CatalogDoc.reprBits
                 ctx.ask("c14_reprbits " + ";".join(str(f64bits(x)) for x in xs), ";".join(hx(json.dumps(x)) for x in xs),
@@ -1262,9 +1399,16 @@ def check_frame(ctx, case):
         branches.append("frame:events sharing an origin time (duplicated datetime index labels)"
                         + (" at the head" if len(ref) > 1 and any(e[1] == ref[0][1] for e in ref[1:]) else ""))
     first = None
+    if sel(case, 3, 9) == 0:
+        try:          # round 7 (i): a frame the loader rejects (a dtype column missing), caught, before the judged calls
+            CSEPCatalog.from_dataframe(cat.to_dataframe().drop(columns=["latitude"]))
+            ctx.run.count("prelude (frame): the call was NOT rejected")
+        except Exception as e:
+            ctx.run.count("prelude (frame): rejected with " + type(e).__name__ + ", caught")
+        branches.append("frame:after a rejected call")
     for label, kw in (("frame round trip", {}), ("frame round trip (with_datetime=True)", dict(with_datetime=True))):
         try:
-            df = cat.to_dataframe(True) if (kw and ctx.nfile % 2) else cat.to_dataframe(**kw)     # positional / keyword
+            df = cat.to_dataframe(True) if (kw and sel(case, 2, 5)) else cat.to_dataframe(**kw)     # positional / keyword
             before = frame_fingerprint(df)
             for nth in ("", ", second load of the same frame"):
                 loaded = CSEPCatalog.from_dataframe(df)
@@ -1279,7 +1423,7 @@ def check_frame(ctx, case):
                 # the second load above already showed whether the stored form still yields the catalog; that loading
                 # touched the caller's frame at all is not the property's business (counted)
                 ctx.run.count("frame:from_dataframe changed the frame it was given (second load compared; below the property level)")
-            if not fails and not kw and (not ref or ctx.nfile % 3 == 0) and len(ref) <= 200:
+            if not fails and not kw and (not ref or sel(case, 3, 3) == 0) and len(ref) <= 200:
                 second_generation(label, loaded, ref, fails, "dict")
                 branches.append("second generation (loaded catalog persisted again)")
             if not kw and ref and not fails:
@@ -1293,7 +1437,7 @@ def check_frame(ctx, case):
                     df = cat.to_dataframe()
                 except Exception as e:
                     ctx.run.count("frame:in-place edit of the caller's frame raised " + type(e).__name__)
-            if not kw and ctx.nfile % 5 == 0 and not fails:
+            if not kw and sel(case, 5, 8) == 0 and not fails:
                 # round 6 (Model/FrameColumns: from_dataframe SELECTS BY NAME): the caller re-orders the columns, adds one,
                 # drops catalog_id — observed and counted (a frame edited by the user is beyond "to a DataFrame and back")
                 try:
@@ -1729,7 +1873,9 @@ def gen_catalog(rng, n, pool, force=None):
     spec = dict(events=events, catalog_id=gen_catalog_id(rng), name=rng.choice(NAMES), region=region)
     if rng.random() < 0.4:
         spec["data_kind"] = rng.choice(["lists", "mixed", "ndarray", "ndarray-be", "tuples", "ndarray-strided",
-                                        "ndarray-reversed-view", "tuple-of-tuples", "numpy-scalars", "all-keywords", "subclass"])
+                                        "ndarray-reversed-view", "tuple-of-tuples", "numpy-scalars", "all-keywords", "subclass", "accessor-subclass", "accessor-subclass"])
+    if rng.random() < 0.25:
+        spec["copy_form"] = rng.choice(COPY_FORMS)
     if "numpy-integer catalog_id through JSON" not in AWAITING_DECISION and spec["catalog_id"] is not None \
             and -2 ** 31 <= spec["catalog_id"] < 2 ** 31 and rng.random() < 0.15:
         spec["catalog_id_np"] = rng.choice(["int64", "int32", "uint64" if spec["catalog_id"] >= 0 else "int64"])
@@ -1838,7 +1984,17 @@ def check_case(ctx, case):
     if zone is not None:
         ctx.run.count("tz:" + zone)
     with local_zone(zone):
-        _check_case(ctx, case)
+        if case.get("numstate"):
+            # round 7 (k): the caller's global numeric state — numpy raising on divide / invalid, a decimal context of 2..6
+            # digits — must not change what a round trip returns (the unchanged tree is robust here on every seed)
+            import decimal
+            import numpy
+            ctx.run.count("numeric state: numpy.errstate(divide, invalid = raise) + decimal prec " + str(2 + sel(case, 5, 11)))
+            with numpy.errstate(divide="raise", invalid="raise"), decimal.localcontext() as dc:
+                dc.prec = 2 + sel(case, 5, 11)
+                _check_case(ctx, case)
+        else:
+            _check_case(ctx, case)
 
 
 def _check_case(ctx, case):
@@ -1892,13 +2048,24 @@ def check_catalog(ctx, spec, frame_opts, serial, prev):
     return _check_catalog(ctx, spec, frame_opts, serial, prev, check_case)
 
 
+PRELUDES = [None, "bad-time", None, "bad-id", "bad-time-append", None, "bad-path", "bad-id-append", None, "bad-option"]
+
+
 def _check_catalog(ctx, spec, frame_opts, serial, prev, check_case):
+    if serial % 5 == 2:
+        plain_check = check_case
+        check_case = lambda c, case: plain_check(c, dict(case, numstate=True))
     combos = [(True, True), (True, False), (False, True), (False, False)]
     todo = combos if not spec["events"] else [combos[serial % 4]]
     for hdr, emp in todo:
-        check_case(ctx, dict(kind="catalog", fmt="ascii", cat=spec,
-                             opts=dict(write_header=hdr, write_empty=emp, via=ASCII_VIAS[(serial // 2) % len(ASCII_VIAS)],
-                                       load_twice=bool(serial % 3 == 0))))
+        o = dict(write_header=hdr, write_empty=emp, via=ASCII_VIAS[(serial // 2) % len(ASCII_VIAS)],
+                 load_twice=bool(serial % 3 == 0))
+        pre = PRELUDES[serial % len(PRELUDES)]
+        if pre:
+            o["prelude"] = pre
+        if serial % 3 == 1:
+            o["append_new"] = True
+        check_case(ctx, dict(kind="catalog", fmt="ascii", cat=spec, opts=o))
     if spec.get("data_kind"):
         check_case(ctx, dict(kind="catalog", fmt="construct", cat=spec))
     # round 4: the catalog array has no column of the name given as id_col
@@ -1914,6 +2081,10 @@ def _check_catalog(ctx, spec, frame_opts, serial, prev, check_case):
     check_case(ctx, dict(kind="catalog", fmt="frame", cat=spec, opts=frame_opts))
     if frame_opts.get("with_region"):    # the same catalog also without its region
         check_case(ctx, dict(kind="catalog", fmt="frame", cat=spec, opts=dict(with_region=False)))
+    if serial % 7 == 3:       # the catalog appended to its own file: the same object writes twice
+        check_case(ctx, dict(kind="catalog", fmt="append", cat=spec, cat2=spec,
+                             opts=dict(write_header=bool(serial % 2), write_empty=True, header2=False, write_empty2=True,
+                                       same_object=True)))
     if prev is not None and (serial % 2 == 0 or not spec["events"] or not prev["events"]):
         hdr, emp = combos[(serial // 2) % 4]
         for hdr2 in ([False, True] if serial % 6 == 0 or not spec["events"] else [False]):
@@ -2002,6 +2173,7 @@ def run(run, rng, tier):
                 ctx.flush()
         ctx.flush()
         run.extra["catalogs"] = serial
+        run.extra["copy_forms_unsupported_by_the_tree"] = sorted(_COPY_UNSUPPORTED)
         run.extra["local_zones_effective"] = sorted(z for z, ok in _ZONE_OK.items() if ok)
         run.extra["awaiting_decision"] = list(AWAITING_DECISION)
         dead = sorted(z for z, ok in _ZONE_OK.items() if not ok)
